@@ -3,6 +3,7 @@ import LitexModel.Export.Addr
 import LitexModel.Export.Accessor
 import LitexModel.Export.MemImage
 import LitexModel.Export.Soc
+import LitexModel.Export.Adapt
 /-
   Driver of C14 (pure `call`s).  Banks are written `<page> <size> <size> ...` and separated by `;`
   (a CSR memory window is a bank without registers); they are given in the exporter's order (sorted by origin).
@@ -34,6 +35,14 @@ import LitexModel.Export.Soc
   call fieldextract <offset> <size> <word>
   call accepts <alignment> <aw> <paging> <busword> ; <bank> ; ...   -> ok | rejected   (SoCError at build time)
   call nlocs <alignment> <aw> <paging>
+  call slavecell <master wbword|wbbyte|axil> <slave wbword|wbbyte|axil> <busByte 0|1> <slave dw> <bus dw> <aw> <depth> <byte address>
+       -> <cell> <32-bit lane>     (the storage cell an access at that address reaches through add_master/add_slave adapters)
+  call chainword <slave kind> <busByte> <sh> <aw> <bus byte address>   -> bus-word index at the slave's own interface ("s2m" adapters)
+  call masterbus <master kind> <busByte> <sh> <aw> <byte address>      -> byte address on the SoC bus ("m2s" adapters)
+  call adrconv <s2m|m2s> <ifWord 0|1> <busWord 0|1> <shift> <bits> <adr>   -> bus_addressing_convert's address on the far side
+  call bridge <axil2wb|wb2axil> <wbWord 0|1> <shift> <bits> <adr>          -> the standard bridge's address on the far side
+  call jsonwords <busword> <size>                              -> `size` of get_csr_json / get_csr_csv
+  call chunks <big 0|1> <busword> <size>                       -> widths of the register's simple CSRs in address order
 -/
 open Litex Litex.Driver Litex.Export Litex.Soc
 
@@ -67,6 +76,11 @@ def pPair (w : String) : Option (Nat × Int) :=
   match w.splitOn ":" with
   | [n, v] => do some (← n.toNat?, ← v.toInt?)
   | _ => none
+
+def pMaster (w : String) : Option MasterKind :=
+  if w == "wbword" then some .wbword else if w == "wbbyte" then some .wbbyte else if w == "axil" then some .axil else none
+def pSlave (w : String) : Option SlaveKind :=
+  if w == "wbword" then some .wbword else if w == "wbbyte" then some .wbbyte else if w == "axil" then some .axil else none
 
 def pBanks (rest : List String) : Option (List Bank) := ((splitSemi rest).filter (· ≠ [])).mapM pBank
 
@@ -167,6 +181,24 @@ def call (args : List String) : Option String :=
     some (toString (fieldExtract (← off.toNat?) (← size.toNat?) (← word.toNat?)))
   | "accepts" :: al :: aw :: pg :: bw :: rest => do
     some (if accepts (← al.toNat?) (← aw.toNat?) (← pg.toNat?) (← bw.toNat?) (← pBanks rest) then "ok" else "rejected")
+  | ["slavecell", mk, kind, bb, dws, dwb, aw, depth, a] => do
+    let shS := Nat.log2 ((← dws.toNat?) / 8); let shB := Nat.log2 ((← dwb.toNat?) / 8); let a ← a.toNat?
+    let cell := slaveCell (← pMaster mk) (← pSlave kind) (← pBool bb) shS shB (← aw.toNat?) (bitsFor ((← depth.toNat?) - 1)) a
+    some s!"{cell} {slaveLane shS a}"
+  | ["chainword", kind, bb, sh, aw, a] => do
+    some (toString (chainWord (← pSlave kind) (← pBool bb) (← sh.toNat?) (← aw.toNat?) (← a.toNat?)))
+  | ["masterbus", mk, bb, sh, aw, a] => do
+    some (toString (masterBus (← pMaster mk) (← pBool bb) (← sh.toNat?) (← aw.toNat?) (← a.toNat?)))
+  | ["adrconv", dir, iw, bw, sh, bits, a] => do
+    let iw ← pBool iw; let bw ← pBool bw; let sh ← sh.toNat?; let bits ← bits.toNat?; let a ← a.toNat?
+    if dir == "s2m" then some (toString (convS2M iw bw sh bits a))
+    else if dir == "m2s" then some (toString (convM2S iw bw sh bits a)) else none
+  | ["bridge", which, ww, sh, bits, a] => do
+    let ww ← pBool ww; let sh ← sh.toNat?; let bits ← bits.toNat?; let a ← a.toNat?
+    if which == "axil2wb" then some (toString (axil2wb ww sh bits a))
+    else if which == "wb2axil" then some (toString (wb2axil ww sh bits a)) else none
+  | ["jsonwords", bw, size] => do some (toString (jsonWords (← bw.toNat?) (← size.toNat?)))
+  | ["chunks", big, bw, size] => do some (showNats (hwChunksAddr (← pBool big) (← bw.toNat?) (← size.toNat?)))
   | ["nlocs", al, aw, pg] => do some (toString (nLocs (← al.toNat?) (← aw.toNat?) (← pg.toNat?)))
   | _ => none
 
